@@ -139,6 +139,11 @@ def work(job):
             c, d = td.compute_both_log_p_and_log_p_one(tree)
             out = [("log_p", a, 0), ("log_p_one", b, 1), ("fused.log_p", c, 0), ("fused.log_p_one", d, 1)]
             ta = state["td_assigned"]
+            # the run loop's pattern: densities are evaluated, the concentration is re-assigned, densities are evaluated again -
+            # nothing derived from the earlier value (log alpha, a memoised term) may survive the assignment
+            ta.prior.alpha = Lin(V.var("alpha_before"))
+            ta.log_p(tree), ta.log_p_one(tree), ta.compute_both_log_p_and_log_p_one(tree)
+            ta.prior.alpha = Lin(alpha)
             c2, d2 = ta.compute_both_log_p_and_log_p_one(tree)
             out += [("after-alpha-assignment.log_p", ta.log_p(tree), 0), ("after-alpha-assignment.log_p_one", ta.log_p_one(tree), 1),
                     ("after-alpha-assignment.fused.log_p", c2, 0), ("after-alpha-assignment.fused.log_p_one", d2, 1)]
@@ -265,6 +270,9 @@ def replay(case):
     for name, tree in variants(forest, dps, (D, G)):
         a, b = td.log_p(tree), td.log_p_one(tree)
         c, d = td.compute_both_log_p_and_log_p_one(tree)
+        ta.prior.alpha = alpha * 3.7 + 0.2
+        ta.log_p(tree), ta.log_p_one(tree), ta.compute_both_log_p_and_log_p_one(tree)
+        ta.prior.alpha = alpha
         c2, d2 = ta.compute_both_log_p_and_log_p_one(tree)
         for got, want in ((a, ref[0]), (b, ref[1]), (c, ref[0]), (d, ref[1]), (ta.log_p(tree), ref[0]), (ta.log_p_one(tree), ref[1]), (c2, ref[0]), (d2, ref[1])):
             worst = max(worst, abs(float(got) - math.log(want)))
